@@ -396,7 +396,7 @@ def iter_space(eng, v, state):
             else:
                 kt, vt, dom, val = m
             if v.kind == "items":
-                return Space("keys", kt=kt, dom=dom, fn=lambda k: VTuple([wrap(k, kt), wrap(z3.Select(val, k), vt)]))
+                return Space("keys", kt=kt, dom=dom, src_val=val, vt=vt, fn=lambda k: VTuple([wrap(k, kt), wrap(z3.Select(val, k), vt)]))
             if v.kind == "keys":
                 return Space("keys", kt=kt, dom=dom, fn=lambda k: wrap(k, kt))
             return Space("keys", kt=kt, dom=dom, fn=lambda k: wrap(z3.Select(val, k), vt))
@@ -525,6 +525,10 @@ def dictcomp(eng, node, state):
         keep = z3.And(z3.Select(sp.dom, bound), cond)
         dom = z3.Lambda([bound], keep)
         val = z3.Lambda([bound], z3.If(keep, unwrap(v, vt), default_of(vs)))
+        hook = eng.builtins.get("__mapbuilt__")
+        if hook is not None:
+            hook(eng, st, "comp", dict(kt=sp.kt, vt=vt, s_dom=sp.dom, s_space=sp, key=bound, cond=cond, g=unwrap(v, vt),
+                                       h_dom=dom, h_val=val, src=getattr(sp, "src_val", None)))
         yield VLoc(st.new_loc(Container("dict", kt=sp.kt, vt=vt, dom=dom, val=val, default=None))), st
 
 
@@ -626,7 +630,8 @@ def b_sorted(eng, args, kwargs, state, node):
         if src == "id(%s[0])" % arg:
             m = as_map(eng, a.src, state)
             if m is None:
-                raise Unsupported("sorted items of untyped empty dict")
+                yield VSortedItems(VEmptyDict()), state
+                return
             yield VSortedItems(VMap(*m)), state
             return
     raise Unsupported("sorted(...) other than the canonical key pattern")
@@ -1061,6 +1066,10 @@ def _accumulate(eng, node, sp, state):
     c2.val = z3.Lambda([k], z3.If(z3.Select(sp.dom, k), new, z3.Select(c.val, k)))
     put(out, acc, c2)
     out.notes.append("R-acc applied at line %d" % node.lineno)
+    hook = eng.builtins.get("__mapbuilt__")
+    if hook is not None:
+        hook(eng, out, "acc", dict(kt=sp.kt, a_dom=c.dom, a_val=c.val, s_dom=sp.dom, s_space=sp, f=f.z, key=k,
+                                  sign=1 if isinstance(aug.op, ast.Add) else -1, h_dom=c2.dom, h_val=c2.val))
     return out
 
 
